@@ -474,6 +474,18 @@ def run_shard(spec):
                         if validate_nb(b):
                             continue
                 nbd.hygiene()
+                if j % 4 == 3:
+                    # an earlier configuration of the same process, undone by the documented reset: whole-path ignores on
+                    # the paths where the flag tables install their key filters, then such a flag table on top, then reset
+                    import nbdime.diffing.notebooks as dn_
+                    try:
+                        dn_.set_notebook_diff_ignores({pth: True for pth in r.sample(["/cells/*/outputs/*", "/cells/*", "/cells/*/outputs", "/metadata", "/cells/*/metadata"], r.randrange(1, 4))})
+                        dn_.set_notebook_diff_targets(**{k: r.random() < 0.5 for k in ("sources", "outputs", "attachments", "metadata", "identifier", "details")})
+                        if r.random() < 0.5:
+                            dn_.set_notebook_diff_ignores({"/cells/*/outputs/*": ["execution_count"], "/cells/*": ["execution_count"]})
+                    finally:
+                        dn_.reset_notebook_differ()
+                    col.count("cases_after_an_earlier_configuration_was_reset")
                 try:
                     base_diff = to_plain(nbd.diff_notebooks(to_node(a), to_node(b)))
                 except Exception:
